@@ -19,4 +19,5 @@ INIT Init
 NEXT Next
 VIEW shview
 INVARIANTS TypeOK RevertNeverFails
+PROPERTIES RestartIsNoOp
 CHECK_DEADLOCK FALSE
